@@ -19,38 +19,7 @@ Assumptions are HYPOTHESES of the theorems, never axioms:
 * UTF-8 is concrete (`String.toUTF8` / `String.fromUTF8?`), nothing assumed.
 -/
 namespace Bobo.Crypto
-/-- supported configuration: key of 16/24/32 bytes, nonce length ≥ 1, tag length 4…16. -/
-def Cfg.Valid (c : Cfg) : Prop :=
-  (c.key.length = 16 ∨ c.key.length = 24 ∨ c.key.length = 32) ∧ 1 ≤ c.nonceLen ∧ 4 ≤ c.macLen ∧ c.macLen ≤ 16
-
-instance (c : Cfg) : Decidable c.Valid := by unfold Cfg.Valid; exact inferInstance
-
-/-- the nonce source returns as many bytes as it is asked for (`get_random_bytes(n)`). -/
-def DrawLen {σ : Type} (draw : Draw σ) : Prop := ∀ n s, ((draw n s).1).length = n
-
 variable {σ : Type}
-
-theorem validParams_of (c : Cfg) (hv : c.Valid) (draw : Draw σ) (hd : DrawLen draw) (s : σ) :
-    ValidParams c.key (draw c.nonceLen s).1 c.macLen := by
-  obtain ⟨hk, hn, h4, h16⟩ := hv
-  refine ⟨hk, ?_, h4, h16⟩
-  intro e
-  have := hd c.nonceLen s
-  rw [e] at this; simp at this; omega
-
-/-- what `encrypt` returns, in terms of the cipher's answer. -/
-theorem encrypt_eq (C : Cipher) (c : Cfg) (draw : Draw σ) (s : σ) (t : String) :
-    (encrypt C c draw s t).1 =
-      layout (C.sealFn c.key (draw c.nonceLen s).1 c.macLen (utf8 (pad t))).1 (draw c.nonceLen s).1
-             (C.sealFn c.key (draw c.nonceLen s).1 c.macLen (utf8 (pad t))).2 := rfl
-
-/-- the (ciphertext, nonce, tag) slots of an output are what the cipher and the nonce source returned. -/
-theorem slices_encrypt (A : AEAD) (c : Cfg) (hv : c.Valid) (draw : Draw σ) (hd : DrawLen draw) (s : σ) (t : String) :
-    slices c.nonceLen c.macLen (encrypt A.toCipher c draw s t).1 =
-      ⟨(A.sealFn c.key (draw c.nonceLen s).1 c.macLen (utf8 (pad t))).1, (draw c.nonceLen s).1,
-       (A.sealFn c.key (draw c.nonceLen s).1 c.macLen (utf8 (pad t))).2⟩ := by
-  rw [encrypt_eq]
-  exact slices_layout _ _ _ _ _ (hd _ _) (A.seal_tag_len _ _ _ _ (validParams_of c hv draw hd s))
 
 /-- what `decrypt ∘ encrypt` computes, for EVERY text: the text without its trailing NULs. -/
 theorem decrypt_encrypt (A : AEAD) (c : Cfg) (hv : c.Valid) (draw : Draw σ) (hd : DrawLen draw) (s : σ) (t : String) :
@@ -129,6 +98,28 @@ theorem tamper_rejected (A : AEAD) (c : Cfg) (draw : Draw σ) (s : σ) (t : Stri
   unfold decrypt decryptWith
   simp only [slices_layout _ _ _ _ _ hn ht, decMacKw, resolveMac, A.open_modified_none _ _ _ _ _ hall]
 
+/-- **C17 tampering, byte level** (the form the bit-flip oracle exercises): any message of the same
+length as an output that differs from it anywhere before the 4-byte marker has different
+(ciphertext, nonce, tag) slots, and is rejected unless its slots hold a NEW sealed triple. -/
+theorem tamper_rejected_bytes (A : AEAD) (c : Cfg) (hv : c.Valid) (draw : Draw σ) (hd : DrawLen draw) (s : σ) (t : String)
+    (b' : Bytes) (hlen : b'.length = (encrypt A.toCipher c draw s t).1.length)
+    (hdiff : b'.take (b'.length - 4) ≠ (encrypt A.toCipher c draw s t).1.take ((encrypt A.toCipher c draw s t).1.length - 4))
+    (hunf : ∀ pt', A.sealFn c.key (slices c.nonceLen c.macLen b').nonce c.macLen pt' =
+        ((slices c.nonceLen c.macLen b').ct, (slices c.nonceLen c.macLen b').tag) →
+      slices c.nonceLen c.macLen b' = slices c.nonceLen c.macLen (encrypt A.toCipher c draw s t).1) :
+    decrypt A.toCipher c b' = .error .cipher := by
+  have hL := encrypt_length A c hv draw hd s t
+  have hge : c.nonceLen + c.macLen + 4 ≤ (encrypt A.toCipher c draw s t).1.length := by
+    rw [hL]; unfold lenEndBytes; omega
+  have hmod : slices c.nonceLen c.macLen b' ≠ slices c.nonceLen c.macLen (encrypt A.toCipher c draw s t).1 := by
+    intro e
+    apply hdiff
+    rw [← slices_concat c.nonceLen c.macLen b' (by omega), ← slices_concat c.nonceLen c.macLen _ hge, e]
+  have hall : ∀ pt, A.sealFn c.key (slices c.nonceLen c.macLen b').nonce c.macLen pt ≠
+      ((slices c.nonceLen c.macLen b').ct, (slices c.nonceLen c.macLen b').tag) := fun pt e => hmod (hunf pt e)
+  unfold decrypt decryptWith
+  simp only [decMacKw, resolveMac, A.open_modified_none _ _ _ _ _ hall]
+
 /-- a wrong-length tag (e.g. a truncated message re-framed) is rejected outright. -/
 theorem wrong_taglen_rejected (A : AEAD) (c : Cfg) (b : Bytes)
     (h : (slices c.nonceLen c.macLen b).tag.length ≠ c.macLen) :
@@ -167,11 +158,6 @@ example : decrypt Toy.aead.toCipher Toy.cfg
     exact absurd h2 (by decide)
 
 /-! ### length and marker -/
-
-theorem encrypt_length (A : AEAD) (c : Cfg) (hv : c.Valid) (draw : Draw σ) (hd : DrawLen draw) (s : σ) (t : String) :
-    (encrypt A.toCipher c draw s t).1.length = (utf8 (pad t)).length + c.nonceLen + c.macLen + lenEndBytes := by
-  rw [encrypt_eq, layout_length, A.seal_ct_len, hd, A.seal_tag_len _ _ _ _ (validParams_of c hv draw hd s)]
-  rfl
 
 /-- **C17 minimum length**, following the real computation: pad count from the CHARACTER count,
 ciphertext as long as the UTF-8 BYTES of the padded text (≥ its character count ≥ 16). -/
